@@ -59,6 +59,7 @@ package transport
 //@   modifies connSt.delivered, connSt.conn.in, connSt.conn.closed, connSt.idleTime, connSt.numInvoke
 //@   ensures [C07] connSt.conn.closed
 //@   ensures [C07] len(connSt.delivered) <= len(connSt.conn.in) && connSt.delivered == connSt.conn.in[0:len(connSt.delivered)]
+//@   site handleConn#0 assert [C07] objof(pkg) != objof(buffer) && objof(pkg) != objof(currBuffer)
 //@   safety [C05]
 //@   loop 0 invariant [C07] connSt.delivered ++ currBuffer == connSt.conn.in
 //@   loop 0 invariant [C07] frameStatus(currBuffer, protocol.maxPackageLength) == FrameLess
@@ -167,4 +168,5 @@ package transport
 //@   allocates
 //@   loop 0 invariant u != nil && u.config != nil && u.server != nil && u.conn != nil && u.server.protocol != nil && (u.config.MaxInvoke > 0 ==> u.pool != nil) && len(buffer) == 65535
 //@   loop 0 modifies everything
+//@   site handleUDPAddr#0 assert [C07] objof(pkg) != objof(buffer)
 //@   safety [C05]
